@@ -1,9 +1,89 @@
 import Okane.Drv.IOUtil
-/-! Driver commands for C15 (stub: replaced when the property's streams are built). -/
-namespace Okane.Drv.C15
+import Okane.Drv.DecodeSyntax
+import Okane.Spec.Import
+/-!
+Driver for C15.
 
-def main (args : List String) : IO Unit := do
-  let _ := args
-  pure ()
+`drv c15 txn` — line (same as `hx c15 txn`):
+   `(txn (d Y M D) <payee> (amt NEG MANT SCALE <commodity>) <src-account> ((<commodity> PREC)...) <op>...)`
+   `<op>` = `(eff (d Y M D))` `(code s)` `(comment s)` `(dest s)` `(clear u|c|p)` `(transferred amt)`
+            `(rate <source> <target> (dec NEG MANT SCALE))` `(balance amt)` `(charge <payee> amt)` `(chargeni <payee> amt)`
+   → `(ok <txn-tree> clean=0|1 readable=0|1)` | `(err builder <Kind>)` | `(err to_double_entry <Kind>)`
+   where the tree is in the format of harness/src/tree.rs, `clean` is `CleanText` of the record and
+   `readable` is `ReadableTree` of the tree.
+`drv c15 readable` — line: a `<txn-tree>` → `readable=0|1` (`ReadableTree` evaluated on a tree the real importer built).
+-/
+namespace Okane.Drv.C15
+open Okane Okane.Import Okane.Drv Sexp
+
+def decDec (n m s : Sexp) : Option Dec := do
+  let n ← n.nat?; let m ← m.nat?; let s ← s.nat?
+  pure ⟨n == 1, m, s⟩
+
+def decAmt : Sexp → Option OwnedAmount
+  | .list [.atom "amt", n, m, s, c] => do
+    let d ← decDec n m s; let c ← c.str?
+    pure ⟨d, c⟩
+  | _ => none
+
+inductive StepRes where
+  | bad
+  | err (e : ImportErr)
+  | ok (t : Txn)
+
+def applyOp (t : Txn) : Sexp → StepRes
+  | .list [.atom "eff", d] => match decDate d with | some d => .ok (t.setEffectiveDate d) | none => .bad
+  | .list [.atom "code", s] => match s.str? with | some s => .ok (t.setCode s) | none => .bad
+  | .list [.atom "comment", s] => match s.str? with | some s => .ok (t.addComment s) | none => .bad
+  | .list [.atom "dest", s] => match s.str? with | some s => .ok (t.setDestAccount s) | none => .bad
+  | .list [.atom "clear", c] => match decClear c with | some c => .ok (t.setClearState c) | none => .bad
+  | .list [.atom "transferred", a] => match decAmt a with | some a => .ok (t.setTransferredAmount a) | none => .bad
+  | .list [.atom "balance", a] => match decAmt a with | some a => .ok (t.setBalance a) | none => .bad
+  | .list [.atom "charge", p, a] =>
+    match p.str?, decAmt a with | some p, some a => .ok (t.addCharge p a) | _, _ => .bad
+  | .list [.atom "chargeni", p, a] =>
+    match p.str?, decAmt a with
+    | some p, some a => (match t.tryAddChargeNotIncluded p a with | .ok t => .ok t | .err e => .err e | _ => .bad)
+    | _, _ => .bad
+  | .list [.atom "rate", src, tgt, .list [.atom "dec", n, m, s]] =>
+    match src.str?, tgt.str?, decDec n m s with
+    | some src, some tgt, some d => (match t.addRate ⟨src, tgt⟩ d with | .ok t => .ok t | .err e => .err e | _ => .bad)
+    | _, _, _ => .bad
+  | _ => .bad
+
+def applyOps (t : Txn) : List Sexp → StepRes
+  | [] => .ok t
+  | op :: rest => match applyOp t op with
+    | .ok t => applyOps t rest
+    | r => r
+
+def b01 (b : Bool) : String := if b then "1" else "0"
+
+def txnStep (line : String) : String :=
+  match Sexp.parse line with
+  | some (.list (.atom "txn" :: d :: payee :: amt :: src :: _prec :: ops)) =>
+    match decDate d, payee.str?, decAmt amt, src.str? with
+    | some d, some payee, some amt, some src =>
+      match applyOps (Txn.new d payee amt) ops with
+      | .bad => "(bad-case)"
+      | .err e => s!"(err builder {e.kind})"
+      | .ok t =>
+        match t.toDoubleEntry src with
+        | .ok tr => s!"(ok {(encTxn tr).toStr} clean={b01 (CleanText t src)} readable={b01 (ReadableTree tr)})"
+        | .err e => s!"(err to_double_entry {e.kind})"
+        | _ => "(crash)"
+    | _, _, _, _ => "(bad-case)"
+  | _ => "(bad-case)"
+
+def readableStep (line : String) : String :=
+  match (Sexp.parse line).bind decTxn with
+  | some tr => s!"readable={b01 (ReadableTree tr)}"
+  | none => "(bad-case)"
+
+def main (args : List String) : IO Unit :=
+  match args with
+  | "txn" :: _ => forEachLine txnStep
+  | "readable" :: _ => forEachLine readableStep
+  | _ => forEachLine fun _ => "(bad-mode)"
 
 end Okane.Drv.C15
